@@ -4355,6 +4355,51 @@ theorem connRequest_spec {A : Nat → Attempt → Prop} {s s' : State} {c rid : 
             intro k' hk'; cases hk'
             exact send_step p2 hc2 rfl g1 g2.1 g2.2 hst2 rid a
 
+/-- a request rejected between `putrequest()` and `endheaders()`: always an error, the state stays good and the
+connection keeps what it had (nothing was connected, nothing was sent) -/
+theorem connReject_spec {A : Nat → Attempt → Prop} {s s' : State} {c : Nat} {ek : Except Exc Nat}
+    (p : Prov A s) (hl : Lease s c) (h : connReject s c = (s', ek)) :
+    (∀ e, ek = .error e → Prov A s' ∧ Lease s' c) ∧ (∀ k, ek ≠ .ok k) := by
+  unfold connReject at h
+  have pF := (forget_safe p c).prov p
+  obtain ⟨fr, fs, fo, fc, fn⟩ := forget_fields s c
+  have hlF : Lease (forgetClosedPending s c) c := by
+    intro cn' k h1 h2
+    cases hc0 : s.conns[c]? with
+    | none => rw [fn hc0] at h1; cases h1
+    | some cn0 =>
+      obtain ⟨cn'', g1, g2, _⟩ := fc cn0 hc0
+      rw [g1] at h1; cases h1
+      rw [fs]; exact hl cn0 k hc0 (by rw [← g2]; exact h2)
+  generalize forgetClosedPending s c = sF at h pF hlF
+  dsimp only at h
+  split at h
+  · cases h
+    exact ⟨fun e _ => ⟨pF, hlF⟩, by intro k hk; cases hk⟩
+  · rename_i cn hcn
+    split at h
+    · cases h
+      exact ⟨fun e _ => ⟨pF, hlF⟩, by intro k hk; cases hk⟩
+    · have p1 : Prov A (setConn sF c fun x => { x with http := .reqSent }) :=
+        (setConn_safe sF c (fun x => { x with http := .reqSent }) (fun x => Or.inr ⟨rfl, rfl⟩)).prov pF
+      have hc1 : (setConn sF c fun x => { x with http := .reqSent }).conns[c]? = some { cn with http := .reqSent } := by
+        simp [setConn, List.getElem?_modify, hcn]
+      have hsk1 : (setConn sF c fun x => { x with http := .reqSent }).socks = sF.socks := rfl
+      cases h
+      refine ⟨fun e _ => ⟨p1, ?_⟩, by intro k hk; cases hk⟩
+      intro cn' k' h1 h2
+      rw [hc1] at h1; cases h1
+      rw [hsk1]; exact hlF cn k' hcn h2
+
+theorem connRequestH_spec {A : Nat → Attempt → Prop} {s s' : State} {c rid : Nat} {a : Attempt} {bad : Bool}
+    {ek : Except Exc Nat} (p : Prov A s) (hl : Lease s c) (h : connRequestH s c rid a bad = (s', ek)) :
+    (∀ e, ek = .error e → Prov A s' ∧ Lease s' c) ∧ (∀ k, ek = .ok k → Sent A s' c k rid a) := by
+  cases bad with
+  | false => exact connRequest_spec p hl h
+  | true =>
+    obtain ⟨g1, g2⟩ := connReject_spec p hl h
+    exact ⟨g1, fun k hk => absurd hk (g2 k)⟩
+
 /-! ### `_make_request` -/
 
 /-- a swallowed send error leaves the socket where it was -/
@@ -4394,16 +4439,17 @@ theorem attachResp_prov {A : Nat → Attempt → Prop} {s : State} (c r : Nat) (
 
 theorem makeRequest_eq (s : State) (c rid : Nat) (a : Attempt) (rc : ReqCfg) :
     makeRequest s c rid a rc =
-      makeTail (connRequest s c rid a).1 c rid rc (sendFix (connRequest s c rid a).1 c (connRequest s c rid a).2) := rfl
+      makeTail (connRequestH s c rid a rc.badHeader).1 c rid rc
+        (sendFix (connRequestH s c rid a rc.badHeader).1 c (connRequestH s c rid a rc.badHeader).2) := rfl
 
 theorem makeRequest_spec {A : Nat → Attempt → Prop} {s s' : State} {c rid : Nat} {a : Attempt} {rc : ReqCfg} {out : RespOut}
     (p : Prov A s) (hl : Lease s c) (hA : A rid a) (h : makeRequest s c rid a rc = (s', out)) :
     (∀ r, out = .resp r → Prov A s') ∧
     (∀ e, out = .exc e → Prov A (connClose s' c) ∧ (Prov A s' ∨ e = translateRecv (exc Gen.cResponseNotReady))) := by
   rw [makeRequest_eq] at h
-  generalize hcr : connRequest s c rid a = res at h
+  generalize hcr : connRequestH s c rid a rc.badHeader = res at h
   obtain ⟨s1, ek⟩ := res
-  obtain ⟨spE, spK⟩ := connRequest_spec p hl hcr
+  obtain ⟨spE, spK⟩ := connRequestH_spec p hl hcr
   dsimp only at h
   -- the tail after a `getresponse()` on a clean connection
   have tail : ∀ (k : Nat) (cn0 : Conn) (sk : Sock), Prov A s1 → s1.conns[c]? = some cn0 → cn0.sock = some k →
